@@ -1,4 +1,6 @@
 import Propka.Props.C15
+import Propka.Proofs.Scoring
+import Propka.Proofs.Rotation
 /-! # C02 — reported pKa = model pKa + the contributions listed for it; the file renders the same numbers -/
 namespace Propka.Dets
 
@@ -107,3 +109,47 @@ theorem rows_exact {β : Type} (sc bb cb : List β) :
   · exact getElem?_range_filterMap cb _ (by omega)
 
 end Propka.Dets
+
+/-! ## the whole of `calculate_pka` (the scoring model, `Model/Scoring.lean`)
+
+`score` is the composition of every phase of `ConformationContainer.calculate_pka` - desolvation, backbone and ion
+determinants, backbone reorganisation, the pair loop with the non-iterative rules and the iterative scheme, the first
+totals, the coupling penalties, the removal of determinants towards penalised groups and the second totals.  Whatever the
+structure, the parameters and the switches, the pKa it leaves on a group is `calculate_total_pka` of exactly the
+desolvation terms and determinant lists it leaves on that group. -/
+namespace Propka.Scoring
+open Propka.Energy
+
+set_option linter.unusedSectionVars false in
+/-- **Pipeline consistency, for every scalar type (in particular for the `Float` instance that is compared with the code bit
+    for bit).** -/
+theorem pipeline_consistent {α : Type} [Add α] [Sub α] [Mul α] [Div α] [Neg α] [NatCast α] [LT α] [LE α]
+    [DecidableLT α] [DecidableLE α] [Max α] [Min α] [BEq α] [Inhabited α] [Trig α]
+    (p : SP α) (env : Env α) (atoms : Tab AtomT) (groups : Tab (GroupT α)) (g : Nat) (hg : g < groups.n) :
+    ∃ o, (score p env atoms groups)[g]? = some o ∧
+      o.pka = totalPka p (gget groups g) o.evol o.eloc o.sc o.bb o.cb :=
+  ⟨_, score_get p env atoms groups g hg, finish_total _ _ _ _ _ _⟩
+
+theorem dsum_eq (z : ℝ) (ds : List (Det ℝ)) : dsum z ds = z + (ds.map (·.value)).sum := by
+  unfold dsum
+  induction ds generalizing z with
+  | nil => simp
+  | cons d ds ih => simp only [List.foldl_cons, List.map_cons, List.sum_cons]; rw [ih]; ring
+
+/-- **Over the reals: reported pKa = model pKa + the two desolvation terms + the sum of all listed determinants**
+    (a disulfide-bridged cysteine is fixed at the configured value instead). -/
+theorem pipeline_sum_identity (p : SP ℝ) (env : Env ℝ) (atoms : Tab AtomT) (groups : Tab (GroupT ℝ)) (g : Nat) (hg : g < groups.n) :
+    ∃ o, (score p env atoms groups)[g]? = some o ∧
+      (if (gget groups g).bridged then o.pka = p.fixed
+       else o.pka = (gget groups g).model + o.evol + o.eloc + (o.sc.map (·.value)).sum + (o.bb.map (·.value)).sum + (o.cb.map (·.value)).sum) := by
+  obtain ⟨o, ho, hp⟩ := pipeline_consistent p env atoms groups g hg
+  refine ⟨o, ho, ?_⟩
+  rw [hp]; unfold totalPka
+  split
+  · rfl
+  · rw [dsum_eq, dsum_eq, dsum_eq]
+
+/-- not vacuous: a two-group table gives two records -/
+example (p : SP ℝ) (env : Env ℝ) (atoms : Tab AtomT) (f : Nat → GroupT ℝ) : (score p env atoms ⟨2, f⟩).length = 2 := score_length _ _ _ _
+
+end Propka.Scoring
